@@ -375,19 +375,31 @@ impl GrantReleaser for BufferManager {
     }
 
     fn try_allocate_raw(&self, size: usize, region: MemoryRegion) -> bool {
-        let current = self.allocated.load(Ordering::Relaxed);
-
-        if current + size > self.hard_limit {
-            // Try eviction
-            self.run_eviction_cycle(true);
-
-            let current = self.allocated.load(Ordering::Relaxed);
-            if current + size > self.hard_limit {
-                return false;
+        // Same compare-and-swap reservation as `try_allocate`: a separate check and add
+        // lets concurrent `MemoryGrant::resize` calls exceed the hard limit together.
+        let mut evicted = false;
+        let mut current = self.allocated.load(Ordering::Relaxed);
+        loop {
+            if current.saturating_add(size) > self.hard_limit {
+                if evicted {
+                    return false;
+                }
+                // Try eviction
+                self.run_eviction_cycle(true);
+                evicted = true;
+                current = self.allocated.load(Ordering::Relaxed);
+                continue;
+            }
+            match self.allocated.compare_exchange_weak(
+                current,
+                current + size,
+                Ordering::AcqRel,
+                Ordering::Relaxed,
+            ) {
+                Ok(_) => break,
+                Err(actual) => current = actual,
             }
         }
-
-        self.allocated.fetch_add(size, Ordering::Relaxed);
         self.region_allocated[region.index()].fetch_add(size, Ordering::Relaxed);
         true
     }
